@@ -13,7 +13,9 @@ RULE = (
     "(errorAtCall / incomplete / contradictory / unspecified / complete); every single deletion, duplication and "
     "transposition of every complete chain (length <= 7); rules of C01's space with one name misspelt / extended / "
     "truncated (absent from the architecture), also on level-limited graphs with too-deep names; regexes matching "
-    "nothing; LayerRule / DiagramRule call-chain prefixes and entry-point option combinations (see streams). "
+    "nothing; layer rules naming 2-3 object layers of mixed kinds (name list / regex) in one are_named call or chained calls, "
+    "a named name-defined layer listing an absent module (prefix of an existing name / misspelt / extended), with the "
+    "well-defined control compared with PtaModel.runLayerRuleOps; LayerRule / DiagramRule call-chain prefixes and entry-point option combinations (see streams). "
     "Observed: exception class or its absence. distinct_nontrivial = distinct histories that the specification "
     "automaton classifies as must-raise."
 )
@@ -231,6 +233,157 @@ def regex_batch_cases(ctx, rng, n, stream):
                                "theorem": "Pta.C13.no_match", "line": gen.rule_line(case), "impl": impl, "model": ans.get("M")})
 
 
+def absent_like(rng, name, present):
+    """a module name that the architecture does not have, shaped after an existing one: a proper string prefix of it (which,
+    read as a pattern anchored at the start only, would match the existing module), a misspelling or an extension; None if
+    no such name is found"""
+    for _ in range(8):
+        k = rng.random()
+        if k < 0.6 and len(name) >= 2:
+            cand = name[: rng.randint(1, len(name) - 1)]
+        elif k < 0.8:
+            cand = misspell(rng, name)
+        else:
+            cand = name + rng.choice(["x", ".zz", "_", "."])
+        if cand and cand not in present:
+            return cand
+    return None
+
+
+def make_mixed_layer_case(rng):
+    """(case with a named layer containing an absent module, control case without it) or None.
+    3-4 layers over pairwise unrelated modules, every layer name-defined or regex-defined; the rule names 2-3 object layers
+    in ONE are_named([...]) call (kinds mixed in either order) or in chained single-layer calls."""
+    from ..layers_common import layer_rule_ops
+    from . import c05
+
+    nodes = gen.random_tree(rng, max_nodes=12, comps=rng.choice([gen.PLAIN, gen.IDENT_ADVERSARIAL]))
+    cand = nodes[:]
+    rng.shuffle(cand)
+    pool = []
+    for c in cand:
+        if all(not gen.related(c, d) for d in pool):
+            pool.append(c)
+    if len(pool) < 3:
+        return None
+    imps = gen.random_imports(rng, nodes, 8)
+    k = rng.randint(3, min(4, len(pool)))
+    layers = []
+    for i in range(k):
+        n = rng.randint(1, max(1, min(2, len(pool) - (k - i - 1))))
+        layers.append([f"L{i}", "N", [pool.pop() for _ in range(n)]])
+    names = [l[0] for l in layers]
+    subj = rng.choice(names)
+    others = [n for n in names if n != subj]
+    objs = rng.sample(others, rng.randint(2, len(others)))
+    # kinds of the object layers: mixed (a name-defined layer before or after a regex-defined one) most of the time
+    mode = rng.random()
+    by_name = {l[0]: l for l in layers}
+    if mode < 0.7:
+        kinds = ["N", "R"] + [rng.choice("NR") for _ in objs[2:]]
+        rng.shuffle(kinds)
+        if rng.random() < 0.5:
+            # the regex-defined layer at the very end / at the very beginning of the list
+            kinds.sort(reverse=rng.random() < 0.5)
+        for o, kd in zip(objs, kinds):
+            by_name[o][1] = kd
+    else:
+        for o in objs:
+            by_name[o][1] = rng.choice("NR")
+    for l in layers:
+        if l[0] not in objs:
+            l[1] = rng.choice("NNR")
+    verb, imp, exc, _ = rng.choice([s for s in gen.SHAPES if not s[3]])
+    form = rng.choice(["list", "list", "list", "chained"])
+    lops = layer_rule_ops(verb, imp, exc, subj, objs, False, obj_as_list=True)
+    if form == "chained":
+        lops = lops[:-1] + [("named", o) for o in objs]
+    control_arch = [(n, kd, (list(ms) if kd == "N" else c05.rx_for(ms))) for n, kd, ms in layers]
+    # the absent name goes into a name-defined layer that the rule names (object layers preferred)
+    named_n = [l for l in layers if l[1] == "N" and l[0] in objs] * 3 + [l for l in layers if l[1] == "N" and l[0] == subj]
+    if not named_n:
+        return None
+    target = rng.choice(named_n)
+    present = set(nodes)
+    model_after = rng.choice(target[2]) if rng.random() < 0.6 else rng.choice(nodes)
+    bad = absent_like(rng, model_after, present)
+    if bad is None:
+        return None
+    mods = list(target[2])
+    if bad in mods:
+        return None
+    how = rng.random()
+    if how < 0.4 or any(bad in l[2] for l in layers):
+        mods[rng.randrange(len(mods))] = bad          # replaces a listed module
+    elif how < 0.7:
+        mods.append(bad)
+    else:
+        mods.insert(0, bad)
+    arch = [(n, kd, (mods if n == target[0] else list(ms)) if kd == "N" else c05.rx_for(ms)) for n, kd, ms in layers]
+    okinds = "".join(by_name[o][1] for o in objs)
+    meta = {"absent": bad, "in_layer": target[0], "object_kinds": okinds, "form": form,
+            "prefix_of_existing": any(m != bad and m.startswith(bad) for m in nodes)}
+    case = {"nodes": nodes, "imps": imps, "arch": arch, "lops": lops, "spec": None, "_meta": meta}
+    control = {"nodes": nodes, "imps": imps, "arch": control_arch, "lops": lops, "spec": None, "_meta": meta}
+    return case, control
+
+
+def mixed_layer_batch_cases(ctx, rng, n, stream):
+    """layer rules whose are_named call lists several layers of mixed kinds; a named name-defined layer lists an absent
+    module: never a verdict.  The same rule without the absent name does give a verdict (and the one the model gives)."""
+    from ..core import pmap
+    from ..layers_common import impl_layer, layer_line
+    from ..proto import parse_answer, run_driver
+
+    pairs = []
+    for _ in range(n):
+        p = make_mixed_layer_case(rng)
+        if p:
+            pairs.append(p)
+    cases = [p[0] for p in pairs]
+    controls = [p[1] for p in pairs]
+    impl = pmap(impl_layer, cases + controls, ctx.jobs, chunk=500)
+    ans = run_driver([layer_line(c) for c in controls])
+    for j, case in enumerate(cases):
+        stream.evaluations += 1
+        got = impl[j]
+        meta = case["_meta"]
+        gcls = got.partition(" I=")[0].split(":")[0]
+        stream.count("layers:" + gcls)
+        stream.count("object-kinds:" + meta["object_kinds"] + "/" + meta["form"])
+        if meta["prefix_of_existing"]:
+            stream.count("absent-name-is-prefix-of-existing")
+        stream.nontrivial.add(digest((case["nodes"], case["arch"], case["lops"])))
+        if gcls != "ERR":
+            ctx.violations.append({"kind": "property-violation", "impl": got, "line": layer_line(case), "arch": case["arch"], "lops": case["lops"],
+                                   "nodes": case["nodes"], "imports": case["imps"], "absent": meta["absent"], "in_layer": meta["in_layer"],
+                                   "what": f"layer rule naming a layer that lists a module absent from the architecture returns {gcls}"})
+            if len(ctx.violations) >= 5:
+                return
+    if ctx.violations:
+        return
+    # the controls: the same rules over layers that list existing modules only give the verdict the model gives
+    for j, case in enumerate(controls):
+        stream.evaluations += 1
+        ctl = impl[len(cases) + j]
+        cbody, _, cidx = ctl.partition(" I=")
+        ccls = "FAIL" if cbody.startswith("FAIL") else cbody
+        a = parse_answer(ans[j])
+        m = a.get("M", "?")
+        mcls = "FAIL" if m.startswith("FAIL") else m
+        stream.count("control:" + ccls.split(":")[0])
+        if ccls == "ERR:lookupError":
+            ctx.violations.append({"kind": "property-violation", "impl": ctl, "model": m, "line": layer_line(case), "arch": case["arch"],
+                                   "lops": case["lops"], "nodes": case["nodes"], "imports": case["imps"],
+                                   "what": "layer rule over layers that list existing modules only ends in a lookup error"})
+            if len(ctx.violations) >= 5:
+                return
+        elif (ccls != mcls or (ccls == "FAIL" and cbody != m)) and len(ctx.broken) < 20:
+            ctx.broken.append({"kind": "correspondence-broken", "what": "correspondence impl = PtaModel.runLayerRuleOps (several object layers of mixed kinds)",
+                               "theorem": "Pta.C13.* / Pta.C05.* are statements about PtaModel.assertAppliesLayer",
+                               "line": layer_line(case), "impl": ctl, "model": m})
+
+
 def run(ctx: Ctx):
     from ..rules_common import interpreter_modes
 
@@ -275,6 +428,11 @@ def run(ctx: Ctx):
     name_cases(ctx, ctx.rng("names"), ctx.size(4000, 200000), s)
     regex_batch_cases(ctx, ctx.rng("regex-batches"), ctx.size(1500, 20000), s)
     s.finish()
+    if not ctx.violations:
+        s = Stream(ctx, "layer rules naming several layers of mixed kinds (name-defined / regex-defined, either order, one are_named([...]) call or "
+                        "chained calls); a named name-defined layer lists an absent module (string prefix of an existing one / misspelt / extended)")
+        mixed_layer_batch_cases(ctx, ctx.rng("mixed-layer-batches"), ctx.size(2500, 30000), s)
+        s.finish()
     from . import c13_more
 
     c13_more.run(ctx)
